@@ -8,7 +8,7 @@ import dbmodel as M
 import iotie
 
 KINDS = ["insert", "insert_multiple", "remove_some", "remove_none", "remove_all_match", "update_some",
-         "update_nochange", "drop", "remove_all", "handle_update", "insert_multiple_bad", "update_raises", "update_shrink", "remove_most", "insert_big_rows", "update_newest_big"]
+         "update_nochange", "drop", "remove_all", "handle_update", "insert_multiple_bad", "update_raises", "update_shrink", "remove_most", "insert_big_rows", "update_newest_big", "insert_after_failed_update_big"]
 BAD = [{"time": 0, "meas": "<undecodable>", "tags": {}, "fields": {}}]
 
 
@@ -28,7 +28,7 @@ def main(tier, seed):
     refused = []
     # the storage's I/O calls are regenerated from storages.py (symbolic execution) and proved equal to the model's scripts (proofs/IOGenP.v)
     b = ck.build_proofs("Prop_C12", pre=lambda: run_translator("py2coq_io.py", "tinyflux/storages.py", "gen/IOGen.v", refused), extra_targets=["Run.vo", "IO.vo"])
-    n_cases = 16 if tier == "quick" else 144
+    n_cases = 17 if tier == "quick" else 153
     cases = iotie.io_cases(seed, n_cases, kinds=KINDS)
     coq_cases, direct_bad, n_pairs, kinds, hard_checked = [], [], 0, {}, 0
     for ci, (hist, op, auto, kind) in enumerate(cases):
@@ -63,7 +63,7 @@ def main(tier, seed):
                                    "file_decodes_to": r["state"], "reopened_database_holds": r["lib_state"], "files_left": r["left"],
                                    "why": "file left by the crash is neither the old nor the new contents" if not ok_file
                                           else "reopening the database after the crash does not give the old or the new contents"})
-        if kind not in ("insert_big_rows", "update_newest_big"):        # (its 70 KiB of text is checked directly above; as Coq literals it would dominate the run time)
+        if kind not in ("insert_big_rows", "update_newest_big", "insert_after_failed_update_big"):        # (its 70 KiB of text is checked directly above; as Coq literals it would dominate the run time)
             coq_cases.append((auto, hist, op, obs))
     # tie: the observed sequence of file contents must walk monotonically through the model's crash states
     f = ck.work / "cases_c12.v"
